@@ -596,7 +596,8 @@ def cause_of(cat, what, got, via, feats):
     under = got in (0, "missing")
     if what in ("dc", "default-ctor") and over and len(bare) == 1 and bare <= CONST_MEMBERS:
         return "const-member-no-init"
-    if over and (bare & DEFAULTED.get(what, set())):
+    if over and (set(feats) & DEFAULTED.get(what, set())):
+        # (an accessible defaulted member: `@protected`/`@private` ones are a matter of access, not of deletion)
         return "defaulted-member-that-is-deleted"
     if what in ("cc", "copy-ctor") and over and "ctor-copy:nonconst" in bare:
         return "copy-ctor-taking-nonconst-ref"
